@@ -154,7 +154,14 @@ def run(chk, tier):
             stats["skipped:" + x["skipped"][:30]] = stats.get("skipped:" + x["skipped"][:30], 0) + 1
             continue
         if "anomaly" in x:
-            raise ToolError("oracle rejects an honest assignment (oracle or C01 problem): %s" % json.dumps(x)[:400])
+            # the honest assignment (generators' own output) violates the circuit's own constraint evaluators /
+            # copy classes / lookup tables: either the honest proof is accepted (a proof for a violating
+            # assignment) or rejected (honest run rejected) - the property fails both ways
+            s0 = byid.get(x["id"], {})
+            chk.violation("C02/honest-assignment-violates-circuit/%s" % c01.opsig(s0) if s0 else "C02/honest-assignment-violates-circuit",
+                          "the assignment produced by the library's own witness generation violates the circuit per the satisfaction oracle: %s" % json.dumps({k: x[k] for k in ("gate", "copy", "lookup", "first_gate") if k in x}),
+                          {"scenario": dict(s0, concrete=x.get("concrete")), "observed": x, "expected": "honest assignment satisfies every gate, copy and lookup constraint"})
+            continue
         chk.evaluations += 1
         exp = rule[(not x["violated"], x["strategy"])]
         k = "%s/%s/%s" % (x["kind"], x["strategy"], "violating" if x["violated"] else "satisfying")
